@@ -273,7 +273,7 @@ class Report:
             out.append('  ' + line)
         for v, k in listed:
             out.append(f'KNOWN-FINDING: property={self.prop} {k.get("what", v.message)} [{v.rule} {v.module}.{v.qualname}]')
-        replay_dir = os.path.join(VERIF, 'replay')
+        replay_dir = os.environ.get('KV_REPLAY_DIR') or os.path.join(VERIF, 'replay')
         for i, (v, _) in enumerate(unlisted):
             os.makedirs(replay_dir, exist_ok=True)
             path = os.path.join(replay_dir, f'{self.prop}-{i}.json')
